@@ -488,6 +488,11 @@ fn run_c20(args: &Args) -> i32 {
 }
 
 /// C16 / C18 / C07: structured input elements for receivers with magic fields, shape sets and bodies
+thread_local! {
+    /// id of the newtype wrapper around the receiver the current worker generates cases for
+    static WRAPPER: std::cell::Cell<Option<usize>> = const { std::cell::Cell::new(None) };
+}
+
 fn magic_cases(recvs: &[Recv], r: &Recv, rng: &mut Rng, prop: &str, _iter: usize) -> Vec<Case> {
     let it = Interp::new(recvs);
     let mut ig = InputGen::new(recvs);
@@ -503,7 +508,17 @@ fn magic_cases(recvs: &[Recv], r: &Recv, rng: &mut Rng, prop: &str, _iter: usize
     };
     let mut e = eg.element(rng, r, &mut mistakes);
     let rendered = elem::render(&mut e, rng.below(6) as u8);
-    let expected = it.element_full(r, &e, &rendered.attr_texts, &rendered.text);
+    let mut expected = it.element_full(r, &e, &rendered.attr_texts, &rendered.text);
+    // a newtype wrapper's own `supports(..)` is judged before it delegates: a shape it does not
+    // admit is the whole answer
+    if let Some(w) = WRAPPER.with(|w| w.get()) {
+        if let (Some(words), elem::Element::Item(i)) = (&recvs[w].supports, &e) {
+            let extra = it.supports_item(words, &i.body);
+            if !extra.is_empty() {
+                expected = Outcome::Err(extra);
+            }
+        }
+    }
     let entry = match (&e, r.tr) {
         (elem::Element::Field(f), _) if f.name.is_none() => "from_tuple_field",
         (_, tr) => tr.entry(),
@@ -890,6 +905,7 @@ fn run_corpus(args: &Args, prop: &'static str, plan: Plan) -> i32 {
                         if wrapper.is_some() {
                             c.count("programs.newtype-wrapper");
                         }
+                        WRAPPER.with(|w| w.set(wrapper.map(|w| w.id)));
                         c.count("programs");
                         c.count(&format!("programs.{:?}{}", r.tr, if r.is_enum() { "-enum" } else { "" }));
                         let mut rng = Rng::for_stream(seed, 1000 + *id as u64, 0);
